@@ -81,7 +81,7 @@ public:
             return network_.teleport(row, col, generator);
         }
         double distance = distance_distribution_(generator);
-        std::tie(row, col) = network_.walk(row, col, distance, generator);
+        std::tie(row, col) = network_.walk(row, col, distance, generator, jump_);
 
         return std::make_tuple(row, col);
     }
